@@ -7,6 +7,7 @@ mod lex;
 mod nf;
 mod ordertest;
 mod props;
+mod sched;
 mod val;
 
 use explore::*;
@@ -132,7 +133,7 @@ fn check(prop: &str, tier: &str, emit: Option<String>) -> i32 {
     let threads = std::thread::available_parallelism().map(|n| n.get()).unwrap_or(8);
     let cap_s: u64 = std::env::var("MC_CAP_S").ok().and_then(|s| s.parse().ok()).unwrap_or(if thorough { 3000 } else { 100 });
     let deadline = Some(t0 + std::time::Duration::from_secs(cap_s));
-    if matches!(prop, "C13" | "C14" | "C15" | "C16" | "C17" | "C18" | "C20") {
+    if matches!(prop, "C13" | "C14" | "C15" | "C16" | "C17" | "C18" | "C19" | "C20") {
         if let Err(e) = cli::check_ancestors_clean() {
             eprintln!("mc: machinery error: {}", e);
             return 3;
@@ -144,6 +145,7 @@ fn check(prop: &str, tier: &str, emit: Option<String>) -> i32 {
         let mut stats = Stats::default();
         let failures = match prop {
             "C18" => cli::c18(thorough, &mut stats),
+            "C19" => sched::c19(thorough, &mut stats),
             "C13" => cli::c13(thorough, &mut stats),
             "C17" => cli::c17(thorough, &mut stats),
             "C20" => cli::c20(thorough, &mut stats),
@@ -163,7 +165,7 @@ fn check(prop: &str, tier: &str, emit: Option<String>) -> i32 {
         eprintln!("[{}] E2: executions={} failures={} ({:.1}s)", prop, stats.transitions, failures.len(), t0.elapsed().as_secs_f64());
         stats.nontrivial = stats.transitions;
         stats.distinct_outputs = stats.transitions;
-        return finish(prop, tier, "E2", stats, failures, rows, emit, t0);
+        return finish(prop, tier, if prop == "C19" { "E3" } else { "E2" }, stats, failures, rows, emit, t0);
     }
     let plans = props::plans_for(prop, thorough);
     if plans.is_empty() {
